@@ -102,7 +102,12 @@ Probs(o)    == AllNum(objs[o]) /\ objs' = objs /\ ev' = Ev("probs", o, NoArgs, "
 FlipOp(o)   == AllNum(objs[o]) /\ Len(objs) < MaxObjs /\ objs' = Append(objs, Flip(objs[o])) /\ ev' = Ev("flip", o, NoArgs, "ok", Len(objs) + 1)
 SaveLoad(o) == AllNum(objs[o]) /\ Len(objs) < MaxObjs /\ objs' = Append(objs, objs[o]) /\ ev' = Ev("saveload", o, NoArgs, "ok", Len(objs) + 1)
 
+\* the Dicke constructor returns a NEW object every time it is called (checked against the definition by DickeVecsAreDicke below)
+DickeVecs == { <<Num(CZero), Num(r2), Num(r2), Num(CZero)>>, <<Num(CZero), Num(COne)>>, <<Num(CZero), Num(CZero), Num(CZero), Num(COne)>> }
+DickeNew(vec) == /\ Len(objs) < MaxObjs /\ objs' = Append(objs, vec)
+                 /\ ev' = Ev("dicke", 0, [NoArgs EXCEPT !.vec = vec], "ok", Len(objs) + 1)
 Steps == {[op |-> "new", o |-> 0, i |-> 0, val |-> Num(CZero), map |-> NoArgs.map, vec |-> v] : v \in InitVecs}
+   \cup {[op |-> "dicke", o |-> 0, i |-> 0, val |-> Num(CZero), map |-> NoArgs.map, vec |-> v] : v \in DickeVecs}
    \cup {[op |-> "set", o |-> o, i |-> i, val |-> x, map |-> NoArgs.map, vec |-> <<>>] :
             o \in 1..Len(objs), i \in -4..3, x \in Vals}
    \cup {[op |-> "bind", o |-> o, i |-> 0, val |-> Num(CZero), map |-> m, vec |-> <<>>] : o \in 1..Len(objs), m \in Maps}
@@ -110,6 +115,7 @@ Steps == {[op |-> "new", o |-> 0, i |-> 0, val |-> Num(CZero), map |-> NoArgs.ma
 Do(s) == CASE s.op = "new" -> New(s.vec)
            [] s.op = "set" -> /\ s.i >= -Len(objs[s.o]) /\ s.i < Len(objs[s.o]) /\ SetItem(s.o, s.i, s.val)
            [] s.op = "bind" -> Bind(s.o, s.map)
+           [] s.op = "dicke" -> DickeNew(s.vec)
            [] s.op = "probs" -> Probs(s.o)
            [] s.op = "flip" -> FlipOp(s.o)
            [] s.op = "saveload" -> SaveLoad(s.o)
@@ -142,6 +148,11 @@ DickeMech(n, k) == LET RECURSIVE W(_, _) W(cur, acc) == IF BitLen(cur) > n THEN 
 DickeDef(n, k) == {i \in 0..(2^n - 1) : PopCount(i) = k}
 DickeLemma == \A n \in 1..5 : \A k \in 0..n : DickeMech(n, k) = DickeDef(n, k)
 ASSUME DickeLemma
+DickeVecsAreDicke == \A v \in DickeVecs : \E k \in 0..Log2(Len(v)) :
+   /\ {i \in 0..(Len(v) - 1) : v[i + 1] # Num(CZero)} = DickeDef(Log2(Len(v)), k)              \* support = weight-k basis states
+   /\ \A i, j \in DickeDef(Log2(Len(v)), k) : v[i + 1] = v[j + 1]                            \* uniform
+   /\ SumSq(v) = COne
+ASSUME DickeVecsAreDicke
 
 AmpJ(a) == IF IsNum(a) THEN [n |-> a.v] ELSE [s |-> a.s]
 VecJ(vec) == [i \in 1..Len(vec) |-> AmpJ(vec[i])]
